@@ -360,6 +360,14 @@ impl PeerDHTRecord {
 
         // Name (length-prefixed)
         if let Some(ref name) = self.name {
+            // An empty name would be encoded exactly like an absent one, so one
+            // signature would cover two different records; `new` rejects it too.
+            if name.is_empty() {
+                return Err(P2PError::Config(crate::error::ConfigError::InvalidValue {
+                    field: "name".to_string().into(),
+                    reason: "Name cannot be empty".to_string().into(),
+                }));
+            }
             let name_bytes = name.as_bytes();
             message.extend_from_slice(&(name_bytes.len() as u32).to_be_bytes());
             message.extend_from_slice(name_bytes);
